@@ -47,6 +47,8 @@ class Prop(PropBase):
                        "w": rng.randint(1, N // 2 - 1), "seed": rng.randrange(1 << 30)}
         for N in (0, 1, 5, 8):
             yield {"op": "r2c", "N": N, "rank": 1, "axis": 0, "dtype": "complex128", "kind": "random", "w": 1, "seed": N}
+        for N, rank, axis in ((8, 2, 0), (7, 3, 2), (16, 2, 1), (1, 2, 0)):
+            yield {"op": "r2c", "N": N, "rank": rank, "axis": axis, "dtype": "float64", "kind": "random", "w": 1, "seed": N + rank, "hollow": True}
         # wide inputs: several million elements, series counts that are not multiples of a power of two
         for N, wide, axis, dt in ((4096, 1030, 0, "float32"), (8192, 600, 0, "float64"), (2048, 2051, 1, "float32")):
             yield {"op": "r2c", "N": N, "rank": 2, "axis": axis, "dtype": dt, "kind": "random", "w": 1, "seed": N + wide, "wide": wide}
@@ -60,6 +62,8 @@ class Prop(PropBase):
         shape = [g.integers(1, 4) for _ in range(rank)]
         if case.get("wide"):
             shape = [case["wide"]] * rank           # many series side by side (millions of elements)
+        if case.get("hollow") and rank > 1:
+            shape = [0 if i != ax else shape[i] for i in range(rank)]      # no series at all: the shape rule still holds
         shape[ax] = N
         if case["kind"] == "tone" and N >= 3:
             n = np.arange(N).reshape([-1 if i == ax else 1 for i in range(rank)])
@@ -92,7 +96,7 @@ class Prop(PropBase):
             return {"err": err_name(e)}
         N = case["N"]
         out = {"dtype": str(y.dtype), "shape": list(y.shape), "in_shape": list(x.shape)}
-        if N == 0:
+        if N == 0 or x.size == 0:
             return out
         xm = np.moveaxis(x.astype(np.float64), ax, 0)
         ym = np.moveaxis(np.asarray(y).astype(np.complex128), ax, 0)
@@ -166,7 +170,7 @@ class Prop(PropBase):
         exp_shape[ax] = (N + 1) // 2
         if code["shape"] != exp_shape:
             return f"output shape {code['shape']}, expected {exp_shape}"
-        if N == 0:
+        if N == 0 or "even_err" not in code:          # nothing to compare for empty inputs beyond shape and dtype
             return None
         lim = self._lim(case)
         if code["even_err"] > lim:
